@@ -211,10 +211,40 @@ def r_defaults(ctx, model):
             log.append(src_.path if isinstance(src_, FileV2) else src_.file.path)
             return marker(default)
         return f_
-    intr.update({"yaml.load": ymlparser(yaml_kw), "yaml.safe_load": ymlparser(), "yaml.full_load": ymlparser()})
+    loaders = []
+
+    def any_pyyaml_loader(k):
+        """yaml.load(stream, Loader=<one of PyYAML's own loader classes>): which one is recorded, and what it makes of the packaged file is compared below"""
+        v = k.get("Loader")
+        name = getattr(v, "name", None)
+        if name is None or not name.startswith("yaml.") or not hasattr(yaml, name.split(".", 1)[1]):
+            raise AnalysisError(f"yaml.load with a loader this rule cannot name: {v!r}")
+        loaders.append(name.split(".", 1)[1])
+    intr.update({"yaml.load": ymlparser(any_pyyaml_loader), "yaml.safe_load": ymlparser(), "yaml.full_load": ymlparser()})
     ev = Ev(model, {}, intr, ctx=ctx)
     user = {"qha": {"settings": {"DT": "U_DT"}}, "elast": "U_EL"}
     out = ev.call_def(f, model.mods[CFG], ref, [marker(user)], {})
+    # the packaged defaults as the loader in use reads them, against YAML's core schema (what safe_load / FullLoader give): BaseLoader, for one, types nothing
+    text = (REPO / "cij" / "data" / "default" / "settings.yaml").read_text()
+    typed = yaml.load(text, Loader=yaml.SafeLoader)
+    for ln in loaders:
+        got_ = yaml.load(text, Loader=getattr(yaml, ln))
+
+        def first_diff(a_, b_, path=""):
+            if isinstance(a_, dict) and isinstance(b_, dict):
+                for kk in a_:
+                    if kk not in b_:
+                        return f"{path}/{kk} missing"
+                    d_ = first_diff(a_[kk], b_[kk], f"{path}/{kk}")
+                    if d_:
+                        return d_
+                return None
+            return None if (a_ == b_ and type(a_) is type(b_)) else f"{path}: {b_!r} ({type(b_).__name__}) instead of {a_!r} ({type(a_).__name__})"
+        diff = first_diff(typed, got_)
+        ctx.check(diff is None, f"yaml.{ln} reads the packaged default/settings.yaml as YAML's core schema does (numbers as numbers, booleans as booleans)", w,
+                  expected="every default leaf with the type it is written with", found=diff or "identical to safe_load",
+                  explanation=f"the packaged defaults are parsed with yaml.{ln}, which does not type scalars as the YAML core schema does: a leaf the user leaves out is no longer the packaged default "
+                              f"({diff}), and the effective configuration no longer validates", key=f"defaults.loader.{ln}")
     want = json.loads(json.dumps(merge_ref(user, default)))
     opened = [getattr(p, "text", p) for p in log if getattr(p, "anchor", None) == "packaged"] if len(log) == len(fs.opened()) else [f"{len(fs.opened())} opened, {len(log)} parsed"]
     ctx.check(isinstance(out, DictV) and unmark(out) == want and opened == ["default/settings.yaml"], "apply_default_config = update_config(user, packaged default/settings.yaml)", w,
